@@ -169,8 +169,8 @@ type dubboInvoker struct {
 func (d *dubboInvoker) GetURL() *common.URL {
 	return common.NewURLWithOptions(common.WithParamsValue("side", d.side))
 }
-func (d *dubboInvoker) IsAvailable() bool   { return true }
-func (d *dubboInvoker) Destroy()            {}
+func (d *dubboInvoker) IsAvailable() bool { return true }
+func (d *dubboInvoker) Destroy()          {}
 func (d *dubboInvoker) Invoke(ctx context.Context, inv protocol.Invocation) protocol.Result {
 	d.f(ctx, inv)
 	return &protocol.RPCResult{}
@@ -349,7 +349,7 @@ func runC07(t *testing.T, seed uint64, planJSON []byte, tier string) (res *Resul
 			return res
 		}
 	}
-	res.Harness = runBubble(t, func(t *testing.T) {
+	res.Harness = runBubbleP(t, plan, func(t *testing.T) {
 		w := bootRemoting(seed, tape, BootCfg{LoadBalance: "RandomLoadBalance", CommitRetry: 1, RollbackRetry: 1}, simnet.Config{FragmentPct: 10})
 		sim, tc, net := w.Sim, w.TC, w.Net
 		sim.Known = loadKnown("C07")
